@@ -57,12 +57,14 @@
 (*   W3  CacheFull is reported only if the content / archive really has    *)
 (*       its maximum of other cached blocks / ranges, and a put is         *)
 (*       accepted only if it has not; is_range_cached and the metadata     *)
-(*       lists agree with what a get returns (judged at probes);           *)
+(*       lists agree with what a get returns (judged at probes), and       *)
+(*       block_sizes[i] is the size of a put of block i;                   *)
 (*       evict_old_entries(age) makes the blocks of every content not      *)
 (*       accessed within `age` unretrievable, and nothing else;            *)
 (*   W4  find_overlapping_ranges returns exactly the cached ranges of the  *)
-(*       archive that intersect the query, for all u64 offsets, and never  *)
-(*       panics;                                                           *)
+(*       archive that intersect the query (half-open intervals, the test   *)
+(*       ro < o+l /\ o < ro+rl in unbounded integers), for all u64         *)
+(*       offsets, and never panics;                                        *)
 (*   W5  read-through (get_with_fallback, get_range_with_fallback,         *)
 (*       resolve_with_fallback): a request is sent to the backend only     *)
 (*       when the cache does not hold the entry, at most one per call;     *)
